@@ -264,6 +264,62 @@ var c19GposMenu = append(append([]gen.Simple{}, gen.GposSimple...),
 	}},
 )
 
+// c19HostileCmap: describing the lookups of a font whose character map names glyphs the font does not have,
+// or codes at the end of the 32-bit range (such files are accepted).
+func c19HostileCmap(r *run.Run) {
+	r.Explore(explore.Config{Name: "C19.explain-hostile-cmap", Workers: 2},
+		"ExplainGsub / ExplainGpos for a font with one simple lookup whose character map (format 12) also names a glyph beyond the font (glyph count, 1000 or 65535) and a code at U+10FFFE or 0x7FFFFFFF: the description is produced (no panic, the call returns) and parses back to the lookup",
+		func(c *explore.Ctx) {
+			gpos := c.Bool("gpos")
+			font := c19Font(c.Bool("glyph names"))
+			beyond := []glyph.ID{glyph.ID(font.NumGlyphs()), 1000, 65535}[c.Choose(3, "glyph id beyond the font")]
+			far := []uint32{0x10FFFE, 0x7FFFFFFF}[c.Choose(2, "largest code")]
+			font.CMapTable = cmap.Table{{PlatformID: 3, EncodingID: 10}: cmap.Format12{'A': gen.GA, 'B': gen.GB, 'C': beyond, far: gen.GC}.Encode(0)}
+			menu := gen.GsubSimple
+			if gpos {
+				menu = gen.GposSimple
+			}
+			ll := gtab.LookupList{gen.MakeLookup(menu[0].Type, gen.Flags[0], menu[0].Sub())}
+			if gpos {
+				font.Gpos = &gtab.Info{LookupList: ll}
+			} else {
+				font.Gsub = &gtab.Info{LookupList: ll}
+			}
+			desc := fmt.Sprintf("gpos %v, the character map names glyph %d and the code %#x", gpos, beyond, far)
+			c.Sample(func() any { return desc })
+			c.Outcome(desc)
+			c.Nontrivial()
+			var text string
+			var p string
+			fin, _ := withWatchdog(30*time.Second, func() {
+				p = guard(func() {
+					if gpos {
+						text = strings.Join(builder.ExplainGpos(font), "\n")
+					} else {
+						text = builder.ExplainGsub(font)
+					}
+				})
+			})
+			if !fin {
+				c.FailObserved("C19.terminates", "explain / hostile cmap", "the description is not produced within 30 s; %s", desc)
+				c.StopExploration()
+				return
+			}
+			if p != "" {
+				c.Fail("C19.panic", "explain / hostile cmap: "+explore.PanicSignature(p), "Explain panics: %s; %s", p, desc)
+				return
+			}
+			got, err := builder.Parse(font, text)
+			if err != nil {
+				c.Fail("C19.roundtrip", "hostile cmap / parse error", "Parse(Explain(L)) fails: %v; %s\n%s", err, desc, text)
+				return
+			}
+			if a, b := c19Canon(ll), c19Canon(got); a != b {
+				c.Fail("C19.roundtrip", "hostile cmap", "Parse(Explain(L)) differs from L; %s\n%s", desc, text)
+			}
+		})
+}
+
 func c19RoundTrip(r *run.Run) {
 	fonts := []*sfnt.Font{c19Font(true), c19Font(false)}
 	flagMenu := []gtab.LookupFlags{0, gtab.IgnoreMarks, gtab.IgnoreLigatures, gtab.IgnoreBaseGlyphs, gtab.IgnoreMarks | gtab.IgnoreLigatures, gtab.IgnoreMarks | gtab.IgnoreLigatures | gtab.IgnoreBaseGlyphs}
@@ -752,6 +808,7 @@ func init() {
 			c19SchedulesOpt(r, "C19.schedules-symbol-cmap", fmt.Sprintf(frule, len(ins), "whose only cmap subtable is a (3,0) symbol subtable"), symbol, ins, 2, 0.3, false)
 		}
 		c19RoundTrip(r)
+		c19HostileCmap(r)
 		c19LargePart(r)
 		c19Semantics(r)
 		c19Gsub1Semantics(r)
